@@ -74,6 +74,10 @@ __CPROVER_assigns()
 __CPROVER_ensures(pSrc == NULL ==> __CPROVER_return_value == NULL)
 __CPROVER_ensures(pSrc != NULL && __CPROVER_return_value != NULL ==>
                   __CPROVER_is_fresh(__CPROVER_return_value, g_n) && TW(SAME_N(__CPROVER_return_value, pSrc), __CPROVER_return_value[0] != pSrc[0]))
+#ifdef VERIF_ALLOC_OK
+/* run with --no-malloc-may-fail: when allocation succeeds EVERY non-NULL source string (the empty one included) is copied */
+__CPROVER_ensures(pSrc != NULL ==> __CPROVER_return_value != NULL)
+#endif
 ;
 
 /* VarCopy: deep copy; source untouched; old destination string released once;
